@@ -5,7 +5,9 @@ use crate::mgmt::*;
 use crate::proto::*;
 
 /// values the CSV reader can carry: commas (quoted on save), multi-byte, interior blanks, '#' not first
-const SAFE: [&str; 12] = ["alice", "a,b", "x, y", "d é", "中文", "a#b", "r.sub == 1", "/p/:id", "k=v", "(x)", "a;b|c", "it's"];
+const SAFE: [&str; 17] = ["alice", "a,b", "x, y", "d é", "中文", "a#b", "r.sub == 1", "/p/:id", "k=v", "(x)", "a;b|c", "it's",
+    // commas together with multi-byte text (the value is written quoted), a lone comma, names that look like syntax
+    "é, b", "a,é", "日,本", ",", "p"];
 
 pub fn run(rec: &mut Recorder, w: &mut World, tier: &str, seed: u64) {
     let mut rng = Rng::new(seed);
